@@ -156,6 +156,21 @@ class C08(Prop):
                 res, crashed = vlib.run_go([c.line()], tag="C08-single", nshards=1, timeout=120)
                 if c.cid not in res:
                     viol.append((c, "the process running this case died (fatal error / stack exhaustion / timeout): %s" % (crashed[:1],)))
-        return viol, {"cases_without_result_first_pass": len(missing)}
+        # known finding D24: values nested by a LOOP (no parser or call-depth limit applies) are printed, compared and converted by
+        # unbounded recursion; running out of stack is fatal for the process and cannot be recovered.  Shown scaled down: the harness
+        # lowers Go's stack limit from 1 GB to 32 MB for these cases, so 400000 levels suffice (each in a process of its own).
+        deep = ['a = [1]; i = 0; while (i < 400000) { a = [a]; i++; } return len(string(a));', 'a = {"k": 1}; i = 0; while (i < 400000) { a = {"k": a}; i++; } print(a); return 1;',
+                'a = [1]; i = 0; while (i < 400000) { a = [a]; i++; } if (a in [a]) { return 1; } return 0;']
+        for k, src in enumerate(deep):
+            c = Case("run", {"script": vlib.hx(src), "objs": "N", "ops": "prepare:opt;exec:0", "maxstack": "33554432"}, "deep-nesting", note=src)
+            c.cid = "DEEP%d" % k
+            c.tags.add("deep-nesting")
+            res, crashed = vlib.run_go([c.line()], tag="C08-deep", nshards=1, timeout=120)
+            if c.cid not in res:
+                viol.append((c, "the process running this case died (fatal error: stack overflow - recursion over a value nested 400000 deep, stack limit lowered to 32 MB)"))
+        return viol, {"cases_without_result_first_pass": len(missing), "deep_nesting_cases": len(deep)}
+
+    def in_class(self, klass, case):
+        return klass == "deep-nesting" and "deep-nesting" in case.tags
 
 PROP = C08()
